@@ -112,4 +112,38 @@ def indexSum {α} (l : List α) (k : Int ⊕ List Int) : Py α :=
   | .inl i => index l i
   | .inr _ => .error .TypeError
 
+/-! ### dicts `str ↦ int`, repetition, item assignment, generators -/
+
+/-- `d[k]` on a dict `str ↦ int` -/
+def dictItemSI (d : List (Str × Int)) (k : Str) : Py Int := getKey d k
+
+/-- `k in d` on a dict `str ↦ int` -/
+def dictHasSI (d : List (Str × Int)) (k : Str) : Bool := (lookup k d).isSome
+
+/-- `d.get(k)` on a dict `str ↦ int` -/
+def dictGetSI? (d : List (Str × Int)) (k : Str) : Option Int := lookup k d
+
+/-- `s * n` on a str (empty for `n ≤ 0`) -/
+def strMul (s : Str) (n : Int) : Str := (List.replicate n.toNat s).flatten
+
+/-- `l * n` on a list (empty for `n ≤ 0`) -/
+def listMul {α} (l : List α) (n : Int) : List α := (List.replicate n.toNat l).flatten
+
+/-- `l[i] = v` (negative indices count from the end; `IndexError` outside) -/
+def setItem {α} (l : List α) (i : Int) (v : α) : Py (List α) :=
+  if 0 ≤ i ∧ i < l.length then .ok (l.set i.toNat v)
+  else if -(l.length : Int) ≤ i ∧ i < 0 then .ok (l.set (i + l.length).toNat v)
+  else .error .IndexError
+
+/-- the end of a `for` over a generator: the exception that ended the iteration, if any -/
+def genEnd (e : Option PyExc) : Py Unit :=
+  match e with
+  | some x => .error x
+  | none => .ok ()
+
+/-- `needle in hay` on strs (substring test) -/
+def strContains : Str → Str → Bool
+  | [], needle => needle.isEmpty
+  | c :: t, needle => needle.isPrefixOf (c :: t) || strContains t needle
+
 end SV.PyRt
